@@ -9,7 +9,6 @@ use std::cell::UnsafeCell;
 /// the verification harnesses do.
 pub struct VerifLocal<T: 'static> {
     cell: UnsafeCell<Option<T>>,
-    init: fn() -> T,
 }
 
 // Safety: harnesses are single threaded.
@@ -21,11 +20,10 @@ impl<T> std::fmt::Debug for VerifLocal<T> {
     }
 }
 
-impl<T: 'static> VerifLocal<T> {
-    pub const fn new(init: fn() -> T) -> Self {
+impl<T: 'static + Default> VerifLocal<T> {
+    pub const fn new() -> Self {
         Self {
             cell: UnsafeCell::new(None),
-            init,
         }
     }
 
@@ -36,15 +34,17 @@ impl<T: 'static> VerifLocal<T> {
         // Safety: single threaded; the reference does not escape `f`.
         let slot = unsafe { &mut *self.cell.get() };
         if slot.is_none() {
-            *slot = Some((self.init)());
+            // Statically dispatched initialiser and a plain write: no function pointer, and no drop glue
+            // for the (empty) old value
+            unsafe { std::ptr::write(slot, Some(T::default())) };
         }
         f(slot.as_ref().unwrap())
     }
 
-    /// Drop the stored value, so that the next access re-initialises it.
+    /// Forget the stored value, so that the next access re-initialises it.
     pub fn reset(&'static self) {
         // Safety: single threaded
-        unsafe { *self.cell.get() = None };
+        unsafe { std::ptr::write(self.cell.get(), None) };
     }
 }
 
